@@ -79,23 +79,33 @@ impl<T: ?Sized> RwLock<T> {
         let cur = SyncBlocker::current();
         // register blocker first
         self.to_wake.push(cur.clone());
+        #[cfg(may_verif)]
+        may_queue::verif::point(may_queue::verif::site::RW_LOCK_PUSHED, self as *const Self as *const () as usize);
         // inc the cnt, if it's the first grab, unpark the first waiter
         if self.cnt.fetch_add(1, Ordering::SeqCst) == 0 {
+            #[cfg(may_verif)]
+            may_queue::verif::point(may_queue::verif::site::RW_LOCK_COUNTED, self as *const Self as *const () as usize);
             self.to_wake
                 .pop()
                 .map(|w| self.unpark_one(&w))
                 .expect("got null blocker!");
         }
+        #[cfg(may_verif)]
+        may_queue::verif::point(may_queue::verif::site::RW_LOCK_COUNTED, self as *const Self as *const () as usize);
         match cur.park(None) {
             Ok(_) => Ok(()),
             Err(ParkError::Timeout) => unreachable!("rwlock timeout"),
             Err(ParkError::Canceled) => {
+                #[cfg(may_verif)]
+                may_queue::verif::point(may_queue::verif::site::RW_CANCEL_CHECK, self as *const Self as *const () as usize);
                 // check the unpark status
                 if cur.is_unparked() {
                     self.unlock();
                 } else {
                     // register
                     cur.set_release();
+                    #[cfg(may_verif)]
+                    may_queue::verif::point(may_queue::verif::site::RW_CANCEL_SETREL, self as *const Self as *const () as usize);
                     // re-check unpark status
                     if cur.is_unparked() && cur.take_release() {
                         self.unlock();
@@ -108,6 +118,8 @@ impl<T: ?Sized> RwLock<T> {
 
     fn try_lock(&self) -> TryLockResult<()> {
         if self.cnt.load(Ordering::SeqCst) == 0 {
+            #[cfg(may_verif)]
+            may_queue::verif::point(may_queue::verif::site::RW_TRYLOCK_LOADED, self as *const Self as *const () as usize);
             match self
                 .cnt
                 .compare_exchange(0, 1, Ordering::SeqCst, Ordering::SeqCst)
@@ -128,6 +140,8 @@ impl<T: ?Sized> RwLock<T> {
 
     fn unlock(&self) {
         if self.cnt.fetch_sub(1, Ordering::SeqCst) > 1 {
+            #[cfg(may_verif)]
+            may_queue::verif::point(may_queue::verif::site::RW_UNLOCK_SUBBED, self as *const Self as *const () as usize);
             self.to_wake
                 .pop()
                 .map(|w| self.unpark_one(&w))
@@ -137,6 +151,8 @@ impl<T: ?Sized> RwLock<T> {
 
     fn unpark_one(&self, w: &SyncBlocker) {
         w.unpark();
+        #[cfg(may_verif)]
+        may_queue::verif::point(may_queue::verif::site::RW_UNPARKED, self as *const Self as *const () as usize);
         if w.take_release() {
             self.unlock();
         }
@@ -144,6 +160,8 @@ impl<T: ?Sized> RwLock<T> {
 
     pub fn read(&self) -> LockResult<RwLockReadGuard<'_, T>> {
         let mut r = self.rlock.lock().expect("rwlock read");
+        #[cfg(may_verif)]
+        may_queue::verif::point(may_queue::verif::site::RW_READ_GOT_RLOCK, self as *const Self as *const () as usize);
         if *r == 0 {
             if let Err(ParkError::Canceled) = self.lock() {
                 // don't set the poison flag
@@ -184,6 +202,8 @@ impl<T: ?Sized> RwLock<T> {
 
     fn read_unlock(&self) {
         let mut r = self.rlock.lock().expect("rwlock read_unlock");
+        #[cfg(may_verif)]
+        may_queue::verif::point(may_queue::verif::site::RW_READ_UNLOCK_GOT_RLOCK, self as *const Self as *const () as usize);
         *r -= 1;
         if *r == 0 {
             self.unlock();
